@@ -474,7 +474,7 @@ def plan(tier, seed):
                 for (P, su) in ((4.0, [125, -250]), (4.0, [0, 62.5]), (7.3, [34.25, 85.6]), (7.3, [-68, 0]))]
     fams = [(16, 14), (32, 30), (64, 62)] if tier == 'quick' else [(16, 14), (24, 23), (32, 30), (64, 62), (128, 126)]
     he_inits = [{'M': M, 'base': b, 'band': float(M), 'units': u,
-                 'shapes': [[b, b], [b + 1, b + 1], [M, M], [b, M], [M, b + 1]]} for (M, b) in fams for u in (0, 1)]
+                 'shapes': [list(t) for t in dict.fromkeys([(b, b), (b + 1, b + 1), (M, M), (b, M), (M, b + 1)])]} for (M, b) in fams for u in (0, 1)]
     ns_shapes = [[40, 41], [100, 101], [400, 401], [1000, 1001], [1200, 1201], [1201, 1200]] + \
         ([] if tier == 'quick' else [[200, 201], [512, 513], [1024, 1025], [1500, 1501], [1999, 2000], [2048, 2049], [2049, 2048]])
     ns_cases = [{'N': N, 'out': S, 'band': P, 'units': u, 'shift': sh} for N in sorted(ns_shapes)
